@@ -48,6 +48,8 @@ mod share;
 mod frames;
 #[path = "../c12/globals.rs"]
 mod globals;
+#[path = "../c12/crossthread.rs"]
+mod crossthread;
 
 // ------------------------------------------------------------ tracked token
 
